@@ -23,6 +23,10 @@ CLAIMS = {
    technique="whole-program provenance & effects analysis (summary-based may-write analysis over go/ssa with symbolic parameter regions, deferred higher-order calls, VTA call graph)",
    text="Decides for all inputs, options and entry points that no store, in-place append, copy or mutating library call reachable from Apply/ApplyForReader/ApplyForFile/ApplyForURL can target memory of the caller's node tree, Options value or URL. A may-analysis: it can only over-report, every report names the store and the call chain. Positive controls (known mutators must be seen mutating; dom.Clone must be classified fresh) guard against vacuity.",
    design="3.1, 4/C10"),
+ "C11": dict(
+   technique="exhaustive enumeration and structural classification of map-range loops (loop transition extraction), reviewed-exception table with machine-checked lemmas, scans for nondeterminism sources with a forward slice of clock values, PEA for state surviving a call, decision-list conformance of the delegating entry points",
+   text="Decides that module code contains no source of run-to-run variation: every map iteration is order-insensitive by construction (insert-only, constant-exit scan, collect-then-sort) or a reviewed entry whose supporting lemma is re-checked; no goroutines, randomness, environment or pointer values; clock values flow only into timing data; nothing written during a call survives it or changes its inputs; ApplyForReader/ApplyForFile only parse/open and delegate. One loop (tie-break between equally good pagination patterns) is a reviewed exception that is not proven order-independent.",
+   design="4/C11"),
  "C12": dict(
    technique="provenance & effects analysis for writes to package-level state + caller arguments; scan for goroutines/channels/sync in module code; import scan",
    text="Decides race-freedom structurally for all interleavings: (G1) no write to memory reachable from a package-level variable on any path from the entry points (except sync.Once-guarded initialisation), (G2) shared arguments are only read, (G3) no concurrency inside the module so per-call memory is private, (G4) no unsafe/reflect/cgo. Together these imply that two calls share no location that either writes, hence no data race and no cross-call influence.",
